@@ -239,8 +239,33 @@ def _known_not_none(body: List[ast.stmt], caller: ast.AST, tree: Optional[ast.AS
     return [K().visit(x) for x in body]
 
 
+def _propagate_flags(body: List[ast.stmt]) -> List[ast.stmt]:
+    """`flag = True` (the first, top-level, only binding of a local in this block) read only in tests: substitute the constant"""
+    import copy as _copy
+    for i, a in enumerate(body):
+        if isinstance(a, ast.Assign) and len(a.targets) == 1 and isinstance(a.targets[0], ast.Name) and isinstance(a.value, ast.Constant) and isinstance(a.value.value, bool):
+            nm = a.targets[0].id
+            rest = body[i + 1:]
+            if any(isinstance(n, ast.Name) and n.id == nm for b in body[:i] for n in ast.walk(b)):
+                continue
+            uses = [n for b in rest for n in ast.walk(b) if isinstance(n, ast.Name) and n.id == nm]
+            if not uses or any(not isinstance(n.ctx, ast.Load) for n in uses):
+                continue
+            if any(isinstance(d, (ast.FunctionDef, ast.AsyncFunctionDef, ast.Lambda, ast.ClassDef)) and any(isinstance(n, ast.Name) and n.id == nm for n in ast.walk(d)) for b in rest for d in ast.walk(b)):
+                continue
+
+            class P(ast.NodeTransformer):
+                def visit_Name(self, n: ast.Name):
+                    if n.id == nm and isinstance(n.ctx, ast.Load):
+                        return ast.copy_location(ast.Constant(value=a.value.value), n)
+                    return n
+            return body[:i] + _propagate_flags([P().visit(b) for b in rest])
+    return body
+
+
 def _fold_block(body: List[ast.stmt]) -> List[ast.stmt]:
     out: List[ast.stmt] = []
+    body = _propagate_flags([_Fold().visit(s) for s in body]) if any(isinstance(s, ast.Assign) for s in body) else body
     for s in body:
         s = _Fold().visit(s)
         for fld in ("body", "orelse", "finalbody"):
@@ -1125,9 +1150,12 @@ class Inliner:
             changed = False
             for i, a in enumerate(body):
                 tg = a.targets[0] if isinstance(a, ast.Assign) and len(a.targets) == 1 else (a.target if isinstance(a, ast.AnnAssign) else None)
-                if not (isinstance(tg, ast.Name) and tg.id.startswith("_inl") and isinstance(getattr(a, "value", None), ast.List) and not a.value.elts):
+                if not (isinstance(tg, ast.Name) and isinstance(getattr(a, "value", None), ast.List) and not a.value.elts):
                     continue
                 T = tg.id
+                via_res = any(isinstance(z, ast.Assign) and len(z.targets) == 1 and isinstance(z.targets[0], ast.Name) and z.targets[0].id.startswith("_inl_res") and isinstance(z.value, ast.Name) and z.value.id == T for z in body[i + 1:])
+                if not (T.startswith("_inl") or (via_res and sum(1 for n in ast.walk(fn) if isinstance(n, ast.Name) and n.id == T and isinstance(n.ctx, ast.Store)) == 1)):
+                    continue
                 # find the closing `X.extend(T)` (possibly through `R = T`)
                 for j in range(i + 1, len(body)):
                     z = body[j]
